@@ -1,13 +1,47 @@
 (* C06 - A failed mutation never corrupts, and single-container operations are atomic.  Statements only.
    In the machine an `Err c` outcome carries no state: it is only produced on paths that return before any
    write (errors raised after a write are modelled as `efail` and keep the modified state - that is how the
-   recorded finding D16 shows up in the model).  PROVED for flat shapes: every failure of a list operation -
+   recorded finding D16 shows up in the model).  PROVED for EVERY enum-free shape and list operations at any
+   nesting depth (C06_general_...): every failure - index, range, length prefix, growth beyond the allowance, growth
+   refused - is a clean `Err` with the owned model's code, the state reached by the descent still represents the same
+   value, and histories with failures in them keep refining the owned model.  PROVED for flat shapes (special case): every failure of a list operation -
    index, range, length prefix, growth beyond the allowance, growth refused by the data access - is such a
    clean `Err`, the state still represents the same value, and the history continues to refine the owned
    model from it.  Lists of unsized elements: correspondence check (refusal of growth at every step of
    growth-heavy histories) and the known finding D16. *)
 From SF Require Import Base.Prelude Gen.Generated Unsized.Types Unsized.Parse Unsized.Machine Unsized.Ops.
 From SF Require Import Unsized.Proofs.EncodeParse Unsized.Proofs.Mem Unsized.Proofs.Notify Unsized.Proofs.Flat.
+From SF Require Import Unsized.Proofs.Layout Unsized.Proofs.Path Unsized.Proofs.Resize Unsized.Proofs.GenOps Unsized.Proofs.History.
+
+(* a failing list operation anywhere inside the value: the descent succeeds, the operation returns the owned model's
+   error before any write, and the state still represents the same value *)
+Theorem C06_general_failure_is_clean :
+  forall ovf t v s top pi0 o code,
+    RepF pi0 t v s top -> oerrG (m_cap s) (m_refuse s) t v o = Some code ->
+    exists top1, menter ovf t s top [] (focus_of o) = Ok top1 /\ mopG t s top1 o = Err code /\
+                 RepF (focus_of o) t v s top1.
+Proof. exact gstep_error. Qed.
+
+(* histories with failures in them: the machine reports exactly the owned model's outcome of every step and every
+   reachable state represents the owned model's value *)
+Theorem C06_general_continue_after_failures :
+  forall ovf t h v s top pi0 v' l,
+    RepF pi0 t v s top -> m_refuse s <> 1 -> orunE (m_cap s) (m_refuse s) t v h = Some (v', l) ->
+    exists s' top' pi', mrunE ovf t s top h = Ok (s', top', l) /\ RepF pi' t v' s' top'.
+Proof. exact grunE_refines. Qed.
+
+Example C06_nonvacuous_general :
+  let et := TStruct [TFixed (FAny 2); TList (FAny 1) 1] in
+  let t := TStruct [TList (FAny 1) 4; TUList et 0] in
+  let e x y := VStruct [VBytes [x; x]; VList y] in
+  let v := VStruct [VList [[1]]; VUList [([], e 3 (repeat [1] 255)); ([], e 4 [])]] in
+  let s := mkMach (encode t v ++ zrepeat 0 10240) (zlen (encode t v)) 0 0 in
+  let h := [GInsert [SF 1; SE 0; SF 1] 0 [[9]]; GInsert [SF 1; SE 1; SF 1] 5 [[9]]; GRemove [SF 1; SE 0; SF 1] 3 2;
+            GInsert [SF 1; SE 1; SF 1] 0 [[9]]; GInsert [SF 0] 0 (zrepeat [0] 10240)] in
+  orunE (m_cap s) 0 t v h
+  = Some (VStruct [VList [[1]]; VUList [([], e 3 (repeat [1] 255)); ([], e 4 [[9]])]],
+          [Some E_TOPRIM; Some E_INDEX; Some E_RANGE; None; Some E_REALLOC]).
+Proof. vm_compute. reflexivity. Qed.
 
 Theorem C06_flat_growth_refused_is_clean :
   forall tsA tsB vsA vsB c lw items, length tsA = length vsA -> forall s top idx new,
